@@ -6,12 +6,14 @@ TInit == l = 1
 Note(i) == IF Cardinality(TLCGet(2)) < 4 THEN PrintT(<<"NONCONFORMING", i, TraceLog[i], "expected", DialAddr(TraceLog[i].cfg.server, TraceLog[i].cfg.ssl), Burst(TraceLog[i].cfg)>>) ELSE TRUE
 TNext == /\ l <= Len(TraceLog)
          /\ IF Conforms(TraceLog[l]) THEN TRUE ELSE Note(l) /\ TLCSet(2, TLCGet(2) \cup {l})
+         /\ IF GrowthOK(TraceLog[l]) THEN TRUE ELSE TLCSet(3, TLCGet(3) \cup {l})
          /\ l' = l + 1
 TraceSpec == TInit /\ [][TNext]_l
 HW == TLCSet(1, IF l > TLCGet(1) THEN l ELSE TLCGet(1))
-ASSUME TLCSet(1, 0) /\ TLCSet(2, {})
+ASSUME TLCSet(1, 0) /\ TLCSet(2, {}) /\ TLCSet(3, {})
 Accepted ==
   /\ TLCGet(1) = Len(TraceLog) + 1
+  /\ PrintT(<<"GROWTH", Cardinality(TLCGet(3))>>)
   /\ IF TLCGet(2) = {} THEN TRUE
      ELSE Print(<<"REJECTED at event", Cardinality(TLCGet(2)), "sessions do not conform, indices", TLCGet(2)>>, FALSE)
 =============================================================================
